@@ -691,3 +691,164 @@ pub fn profiles(tr: &mut Tr, g: &mut G) {
         }
     }
 }
+
+// =============================================================================================
+// F. signed zeros reaching a case split
+// =============================================================================================
+/// Profiles whose start / end positions come from {+0.0, -0.0, x, -x} (displacements of exactly +0.0
+/// and -0.0 included) with start / end velocities from {+0.0, -0.0, +max_vel, -max_vel, +-v}: whether
+/// the constructor accepts, and the accessors at 0, at fractions of 4*max_vel/max_acc (the duration
+/// of a there-and-back excursion) and far beyond.  Plus the other places where a sign or a comparison
+/// with zero decides something: Quantity::abs, comparisons, Command::from(State), State setters,
+/// CommandPID's "same command?" test.  Everything is printed through canonical bits (the statement
+/// compares "as f32 values": +0.0 and -0.0 are the same value), and nothing here divides by a zero
+/// whose sign is unspecified.
+pub fn signed_zero(tr: &mut Tr, g: &mut G, full: bool) {
+    let vm = g.pos(1e-1, 1e2);
+    let t_acc = g.pos(1e-1, 1e1);
+    let am = vm / t_acc;
+    let x = g.pos(1e-2, 1e2);
+    let v = vm * g.uniform(0.1, 0.9);
+    let pos = [0.0f32, -0.0, x, -x];
+    let vel = [0.0f32, -0.0, vm, -vm, v, -v];
+    // position combinations: the zero-displacement ones always, the rest in full programs / at random
+    let mut pcs: Vec<(f32, f32)> = vec![(0.0, 0.0), (0.0, -0.0), (-0.0, 0.0), (-0.0, -0.0), (x, x), (-x, -x)];
+    if full {
+        for a in pos {
+            for b in pos {
+                if !pcs.iter().any(|&(p, q)| p.to_bits() == a.to_bits() && q.to_bits() == b.to_bits()) {
+                    pcs.push((a, b));
+                }
+            }
+        }
+    } else {
+        pcs.push((pos[g.usize(4)], pos[g.usize(4)]));
+    }
+    // duration of the excursion and probe times
+    let big_t = (4.0 * (vm as f64) / (am as f64) * 1e9) as i64;
+    let times_full = [0i64, 1, big_t / 4, big_t / 2, (big_t / 4) * 3, big_t - 1000, big_t + 1000, 4 * big_t + 1_000_000_000];
+    let times_reduced = [0i64, big_t / 4, (big_t / 4) * 3, big_t + 1000, 4 * big_t + 1_000_000_000];
+    let times: &[i64] = if full { &times_full } else { &times_reduced };
+    // piece / mode / acceleration / velocity / position (the History view repeats mode + value)
+    let probe = |tr: &mut Tr, tag: &str, mp: &MotionProfile| {
+        for &t in times {
+            let t = Time(t);
+            tr.w2(tag, ".mode", 'E', mp.get_mode(t).map(pd_word).unwrap_or("none"));
+            tr.i2(tag, ".piece", 'E', mp.get_piece(t) as i64);
+            for (suf, v) in [(".acc", mp.get_acceleration(t)), (".vel", mp.get_velocity(t)), (".pos", mp.get_position(t))] {
+                match v {
+                    None => tr.w2(tag, suf, 'E', "none"),
+                    Some(q) => tr.f2(tag, suf, 'E', q.value),
+                }
+            }
+        }
+    };
+    for (pi, &(p0, p1)) in pcs.iter().enumerate() {
+        // velocity pairs: both feasible zero-displacement pairs always, plus random ones (all 36 in full
+        // programs for the signed-zero position pairs)
+        let mut vcs: Vec<(f32, f32)> = vec![(vm, vm), (-vm, -vm)];
+        if full && pi < 4 {
+            for a in vel {
+                for b in vel {
+                    if !((a == vm && b == vm) || (a == -vm && b == -vm)) {
+                        vcs.push((a, b));
+                    }
+                }
+            }
+        } else {
+            for _ in 0..(if full { 3 } else { 1 }) {
+                vcs.push((vel[g.usize(6)], vel[g.usize(6)]));
+            }
+        }
+        for (v0, v1) in vcs {
+            let tag = if p0 == p1 { "mp.zero_displacement" } else { "mp.signed_positions" };
+            let c = ProfileCase {
+                start: State::new_raw(p0, v0, 0.0),
+                end: State::new_raw(p1, v1, 0.0),
+                max_vel: vm,
+                max_acc: am,
+                comfortable: false,
+            };
+            match build_profile(&c) {
+                None => tr.w2(tag, ".new", 'E', "panic"),
+                Some(mp) => {
+                    tr.w2(tag, ".new", 'E', "ok");
+                    guarded(tr, tag, |tr| {
+                        if full {
+                            observe_profile(tr, tag, &mp, times);
+                        } else {
+                            probe(tr, tag, &mp);
+                        }
+                    });
+                }
+            }
+        }
+    }
+    // ---- the other sign / zero decisions
+    let zs = [0.0f32, -0.0];
+    let (u, _, _) = pick_unit(g);
+    let y = g.nz(1e3);
+    guarded(tr, "zero.scalar", |tr| {
+        for a in zs {
+            let qa = Quantity::new(a, u);
+            tr.q("zero.abs", qa.abs());
+            tr.q("zero.abs.sum", qa.abs() + Quantity::new(y, u));
+            tr.q("zero.abs.mul", qa.abs() * Quantity::new(y, u));
+            tr.q("zero.neg_abs", (-qa).abs());
+            for b in zs {
+                let qb = Quantity::new(b, u);
+                tr.b("zero.eq", qa == qb);
+                tr.b("zero.lt", qa < qb);
+                tr.b("zero.le", qa <= qb);
+                tr.b("zero.ge", qa >= qb);
+                tr.i("zero.partial_cmp", ord_code(qa.partial_cmp(&qb)));
+                tr.b("zero.state_eq", State::new_raw(a, b, a) == State::new_raw(b, a, b));
+                tr.b("zero.command_eq", Command::Position(a) == Command::Position(b));
+                tr.q("zero.sum", qa + qb);
+                tr.q("zero.product", qa * Quantity::new(y, u) + qb * Quantity::new(-y, u));
+            }
+        }
+        // Command::from(State): every pattern of {+0, -0, y} ("lowest non-zero derivative")
+        let comp = [0.0f32, -0.0, y];
+        for p in comp {
+            for v in comp {
+                for a in comp {
+                    tr.cmd("zero.command_from_state", Command::from(State::new_raw(p, v, a)));
+                }
+            }
+        }
+        // setters with signed zeros
+        for a in zs {
+            let mut s = State::new_raw(y, y, y);
+            let r = s.set_constant_position(Quantity::new(a, MILLIMETER));
+            tr.w("zero.set_pos", if r.is_ok() { "ok" } else { "rejected" });
+            tr.state("zero.set_pos", s);
+            let mut s = State::new_raw(y, y, y);
+            let r = s.set_constant_velocity(Quantity::new(a, MILLIMETER_PER_SECOND));
+            tr.w("zero.set_vel", if r.is_ok() { "ok" } else { "rejected" });
+            tr.state("zero.set_vel", s);
+            let mut s = State::new_raw(a, -a, a);
+            s.update(Time(1_500_000_000));
+            tr.state("zero.update", s);
+            tr.cmd("zero.command_after_update", Command::from(s));
+        }
+    });
+    // CommandPID: setting Position(-0.0) over Position(+0.0) is the same command (no restart)
+    let samples: Vec<f32> = (0..5).map(|_| g.val(1e2)).collect();
+    guarded(tr, "zero.cmdpid", |tr| {
+        use rrtk::streams::control::CommandPID;
+        let kv = PositionDerivativeDependentPIDKValues::new(PIDKValues::new(1.0, 0.5, 0.25), PIDKValues::new(1.0, 0.5, 0.25), PIDKValues::new(1.0, 0.5, 0.25));
+        for (c0, c1) in [(Command::Position(0.0), Command::Position(-0.0)), (Command::Velocity(-0.0), Command::Velocity(0.0)), (Command::Acceleration(0.0), Command::Acceleration(-0.0))] {
+            let src = Src::<State>::new();
+            let mut s = CommandPID::new(src.dynref(), c0, kv);
+            for (k, &x) in samples.iter().enumerate() {
+                if k == 3 {
+                    tr.noe("zero.cmdpid", ".set", &s.set(c1));
+                }
+                src.some(1_000_000_000 * (k as i64 + 1), State::new_raw(x, -x, x * 0.5));
+                tr.noe("zero.cmdpid", ".upd", &s.update());
+                tr.out_f("zero.cmdpid", &s.get());
+            }
+        }
+    });
+}
